@@ -2306,7 +2306,7 @@ struct PFile {
 const CLASS_D10: &str = "sst-final-block-unchecksummed-metadata";
 const CLASS_D3: &str = "log-replay-unwraps-reader-error";
 /// ManifestIterator returned an edit after an error (as found, its non-ASCII check did not poison
-/// it; repaired by fixes/mani-nonascii-poisons.diff): the edit is the rest of the damaged transaction
+/// it; repaired by /repo commit ef4f524): the edit is the rest of the damaged transaction
 const CLASS_NONASCII: &str = "mani-iterator-not-poisoned-after-non-ascii-line";
 
 /// the trigger of `CLASS_NONASCII`, a predicate on the input: some line of the damaged file (as
